@@ -61,7 +61,14 @@ def decide_zero(expr, tries=6, domain=None):
         s = expr
     if s == 0:
         return ('zero', None)
-    # uninterpreted functions of the reader: the ones with a known meaning get it, the others become fresh unknowns (sampled like symbols)
+    s = interpret(s)
+    if s.atoms(sp.core.function.AppliedUndef):
+        return ('unknown', 'uninterpreted function in the residual')
+    return _sample_zero(s, tries, domain)
+
+
+def interpret(s):
+    """uninterpreted functions of the reader: the ones with a known meaning get it, the others become fresh unknowns (sampled like symbols)"""
     for _ in range(4):
         fa = s.atoms(sp.core.function.AppliedUndef)
         if not fa:
@@ -84,11 +91,46 @@ def decide_zero(expr, tries=6, domain=None):
         if not rep:
             break
         s = s.xreplace(rep)
-    if s.atoms(sp.core.function.AppliedUndef):
-        return ('unknown', 'uninterpreted function in the residual')
-    syms = s.free_symbols
+    return s
+
+
+def decide_zero_on_path(expr, conds, tries=24, domain=None):
+    """decide_zero restricted to the witness points that satisfy a path condition: conds = [(sympy boolean, polarity)].
+    ('zero' is never returned: this is a witness search) -> ('nonzero', env, value) | ('unknown', reason)"""
+    if isinstance(expr, sp.MatrixBase):
+        worst = ('unknown', 'vanishes on the witness points of the path')
+        for e in expr:
+            v = decide_zero_on_path(e, conds, tries, domain)
+            if v[0] == 'nonzero':
+                return v
+            worst = v
+        return worst
+    s = interpret(sp.sympify(expr))
+    cs = [(interpret(c), pol) for (c, pol) in conds if isinstance(c, sp.Basic)]
+    if s.atoms(sp.core.function.AppliedUndef) or any(c.atoms(sp.core.function.AppliedUndef) for c, _ in cs):
+        return ('unknown', 'uninterpreted function in the residual or the path condition')
+    return _sample_zero(s, tries, domain, cs)
+
+
+def _sample_zero(s, tries, domain, conds=()):
+    syms = set(s.free_symbols)
+    for c, _ in conds:
+        syms |= c.free_symbols
     evaluated = 0
     for env in _samples(syms, tries, domain=domain):
+        ok = True
+        for (c, pol) in conds:
+            try:
+                cv = c.subs(env)
+                if cv not in (sp.true, sp.false) and hasattr(cv, 'lhs'):
+                    cv = cv.func(sp.N(cv.lhs, 40), sp.N(cv.rhs, 40))
+            except Exception:
+                cv = None
+            if cv not in (sp.true, sp.false) or bool(cv) != pol:
+                ok = False
+                break
+        if not ok:
+            continue
         try:
             v = sp.N(s.subs(env), 40)
         except Exception:
